@@ -37,6 +37,10 @@ def rotations(seed, tier="quick"):
     R = [np.eye(3), O.rotation_from_axis_angle((1, 0, 0), 90), O.rotation_from_axis_angle((0, 1, 0), 90),
          O.rotation_from_axis_angle((0, 0, 1), 90), O.rotation_from_axis_angle((1, 1, 0), 180)]
     R = R + O.generic_rotations(seed)[:3]
+    # a degree or so short of a half turn, about axes whose largest component is negative (where the Rodrigues vector is long and the
+    # usual formula starts to cancel)
+    R = R + [O.rotation_from_axis_angle((-3, 1, 2), 178.6), O.rotation_from_axis_angle((3, -1, -2), 178.6), O.rotation_from_axis_angle((1, -2, 0.5), 178.9),
+             O.rotation_from_axis_angle((-1, 2, -0.5), 178.9)]
     if tier == "thorough":
         # every table of generic rotations, the 24 exact proper signed permutations, and rotations within 1e-3 .. 2 degrees of 180
         for tab in range(len(O.GENERIC_ROTATIONS)):
